@@ -34,7 +34,11 @@ func dynProfile(preserve, bluegreen bool) Profile {
 		{"ssl-redirect", []string{"false"}},
 		// host scoped, and copied to the backends of the host when the configuration is synchronized
 		{"auth-tls-secret", []string{"ca1"}},
+		// a userlist is re-created together with its backend by every partial sync that touches the backend
+		{"auth-type", []string{"basic"}},
+		{"auth-secret", []string{"pw"}},
 	}
+	p.AuthSecret = true
 	if preserve {
 		p.Ann = append(p.Ann, annChoice{"session-cookie-preserve", []string{"true", "false"}}, annChoice{"session-cookie-dynamic", []string{"false"}},
 			annChoice{"session-cookie-value-strategy", []string{"pod-uid", "server-name"}})
@@ -66,7 +70,7 @@ func genDynHistory(t *rapid.T, p Profile, kinds []string, maxBatches int) HistCa
 	g := newG(t, p)
 	g.genWorld()
 	g.genRichExtras()
-	params := ctlsim.Params{Shards: rapid.SampledFrom([]int{0, 0, 3}).Draw(t, "shards"), SortBy: rapid.SampledFrom([]string{"", "", "name", "ip"}).Draw(t, "sortby")}
+	params := ctlsim.Params{Shards: rapid.SampledFrom([]int{0, 0, 2, 3}).Draw(t, "shards"), SortBy: rapid.SampledFrom([]string{"", "", "name", "ip"}).Draw(t, "sortby")}
 	c := HistCase{Params: params}
 	for _, o := range g.W.List() {
 		c.Init = append(c.Init, o.Clone())
